@@ -72,7 +72,7 @@ def regPart (isa : Isa) (flagDeps : Bool) (rest : List Ins) (d : Op) : List (Nat
 /-- emissions of one destination operand that is a memory operand (store → load) -/
 def memPart (isa : Isa) (p : Ins) (rest : List Ins) (d : Op) : List (Nat × Tag) :=
   match d with
-  | .mem m => scanMem isa m (updateState [] p.changes) rest
+  | .mem m => scanMem isa m (startState p) rest
   | _ => []
 
 /-- the register/flag emissions of a producer, in destination order -/
